@@ -211,6 +211,49 @@ def memo(s1, s2, a0, a1, a2, a3, b0, b1, b2, b3, cache_kind):
     return True
 
 
+CALL_SHAPES = [
+    lambda x, y: ((x,), {}),
+    lambda x, y: ((x, y), {}),
+    lambda x, y: ((x,), {"a": y}),
+    lambda x, y: ((), {"a": x}),
+    lambda x, y: (((x,), {"a": y}), {}),  # two positionals that look like an (args, kwargs) pair
+    lambda x, y: (((x, y),), {}),
+    lambda x, y: ((((x,), {"a": y}),), {}),  # one positional that is an (args, kwargs) pair
+    lambda x, y: ((), {}),
+    lambda x, y: (((), {}), {}),
+    lambda x, y: ((), {"a": x, "b": y}),
+    lambda x, y: (({"a": x, "b": y},), {}),
+    lambda x, y: ((x,), {"b": y}),
+]
+
+
+def memo_calls(c1, c2, x1, y1, x2, y2):
+    """two calls of one memoized f(*args, **kwargs) whose (args, kwargs) come from the listed call shapes:
+    the second call gets the stored result only when it passes the same arguments in the same way"""
+    L.reset()
+    c1 = L.concretize(c1, 0, len(CALL_SHAPES) - 1)
+    c2 = L.concretize(c2, 0, len(CALL_SHAPES) - 1)
+    x1, y1, x2, y2 = (L.concretize(v, 0, 1) for v in (x1, y1, x2, y2))
+    calls = []
+
+    @C.memoize(cache=C.SimpleCache(), fallback_to_pickle=False)
+    def f(*args, **kwargs):
+        calls.append(1)
+        return len(calls)
+
+    a1, k1 = CALL_SHAPES[c1](x1, y1)
+    a2, k2 = CALL_SHAPES[c2](x2, y2)
+    r1 = f(*a1, **k1)
+    r2 = f(*a2, **k2)
+    same = c1 == c2 and _value_eq((a1, k1), (a2, k2))
+    if same:
+        if not (r2 == r1 and len(calls) == 1):
+            return fail("equal call was recomputed")
+    elif not (r2 == 2 and len(calls) == 2):
+        return fail("stored result returned for a call with different arguments")
+    return True
+
+
 CANARIES = {}
 
 
@@ -301,6 +344,19 @@ def obligations(tier):
                 timeout=120,
                 flags=("hashstub",),
                 bounds=f"memoize(SimpleCache | LRUCache) called with {s1} then {s2} then the first again with another keyword value; leaves in 0..1 (the cache hashes them)",
+            )
+        )
+    for c1 in range(len(CALL_SHAPES)):
+        obs.append(
+            Ob(
+                f"memo_calls_{c1}",
+                [("c2", I), ("x1", I), ("y1", I), ("x2", I), ("y2", I)],
+                [f"0 <= c2 < {len(CALL_SHAPES)}", "0 <= x1 <= 1 and 0 <= y1 <= 1 and 0 <= x2 <= 1 and 0 <= y2 <= 1"],
+                f"H.memo_calls({c1}, c2, x1, y1, x2, y2)",
+                timeout=200,
+                flags=("hashstub",),
+                bounds=f"a memoized f(*args, **kwargs) called in shape {c1} and then in each of {len(CALL_SHAPES)} call shapes (positional / keyword / positionals "
+                "that mimic an (args, kwargs) pair / empty), leaves 0..1: a stored result only for the same call",
             )
         )
     return obs
